@@ -44,7 +44,7 @@ fn strategy(mode: Mode) -> BoxedStrategy<Input> {
         Mode::C24 => (8, 50),
     };
     (hist_strategy(COMMON_TYPES, V2_STORAGES, op_mix(mode), steps, stale), prop::collection::vec(0u16..40, 3..7))
-        .prop_map(|(mut hist, probes)| {
+        .prop_map(move |(mut hist, probes)| {
             // several fragments and some rows to fight over
             if hist.initial.len() < 4 {
                 let extra: Vec<RowSeed> = (0..6).map(|i| RowSeed(vec![(i * 3 + 1) as u16; ROW_WIDTH])).collect();
@@ -52,6 +52,27 @@ fn strategy(mode: Mode) -> BoxedStrategy<Input> {
             }
             if hist.init_file_rows > 6 {
                 hist.init_file_rows = 3;
+            }
+            if mode == Mode::C24 && probes[0] % 3 == 0 {
+                // race core (a third of the cases): an index is built from a handle that has seen neither a new fragment
+                // nor the in-place rewrite of its column in an old and in the new fragment, and commits after both
+                let ncols = hist.cfg.cols.len();
+                let seed = |k: u16| RowSeed(vec![probes[0].wrapping_mul(7).wrapping_add(k); ROW_WIDTH]);
+                hist.steps.push(Step { op: Op::Append { rows: vec![seed(1), seed(2)], splits: vec![], max_rows_per_file: 1000 }, stale: None });
+                hist.steps.push(Step {
+                    op: Op::Merge(MergeSpec {
+                        key: ncols as u8, // uid
+                        src: vec![(seed(3), Some(0)), (seed(4), Some(65535)), (seed(5), Some(30000))],
+                        matched: 0,
+                        insert_not_matched: false,
+                        by_source: 0,
+                        by_source_pred: RawPred::IsNull { col: 0 },
+                        partial: Some(if ncols >= 3 { vec![0, 1] } else { vec![0] }),
+                        use_index: false,
+                    }),
+                    stale: None,
+                });
+                hist.steps.push(Step { op: Op::CreateIndex { col: 0, kind: (probes[0] % 2) as u8, replace: true }, stale: Some(20000) });
             }
             Input { hist, probes }
         })
@@ -238,7 +259,7 @@ impl Property for C24 {
         "C24"
     }
     fn rule(&self) -> String {
-        "Tables with several fragments and BTree/Bitmap indices on non-nullable columns; histories of 1-7 ops from {create_index (replace on/off), optimize_indices, update (rewrite rows), merge_insert incl. sub-schema sources that rewrite the indexed column in place, compaction, append, delete}, 50% on a stale handle (so index creation/optimisation races with column-rewriting writes in both commit orders). After every commit, for every indexed column a panel of =,<,<=,>,>=,BETWEEN,IN,IS NULL predicates with generated literals must return the same uid set with use_scalar_index(true), with use_scalar_index(false) and in the model (which knows the new values). Non-trivial = a rebased commit of an index op or a write while an index existed; distinct by op-kind sequence.".into()
+        "Tables with several fragments and BTree/Bitmap indices on non-nullable columns; histories of 1-7 ops from {create_index (replace on/off), optimize_indices, update (rewrite rows), merge_insert incl. sub-schema sources that rewrite the indexed column in place, compaction, append, delete}, 50% on a stale handle (so index creation/optimisation races with column-rewriting writes in both commit orders); a third of the cases end with a forced race core: append of a new fragment, a sub-schema merge_insert on uid that rewrites the first column(s) in place for rows of an old and of the new fragment, then create_index from a handle that has seen neither. After every commit, for every indexed column a panel of =,<,<=,>,>=,BETWEEN,IN,IS NULL predicates with generated literals must return the same uid set with use_scalar_index(true), with use_scalar_index(false) and in the model (which knows the new values). Non-trivial = a rebased commit of an index op or a write while an index existed; distinct by op-kind sequence.".into()
     }
     fn cases(&self, tier: Tier) -> u32 {
         tier.pick(1000, 20000)
